@@ -219,7 +219,7 @@ Proof.
     destruct (reserve save (ph_container cs) ss l1) as [ss1 i] eqn:Eres.
     destruct (st_rel_reserve save _ (ph_container cm) ss sm l1 ss1 i Hr (slot_ph_container cs cm Hs) Eres) as (sm1 & Eresm & Hr1).
     rewrite Eresm.
-    destruct (read_objs rs (List.length l) n [] ss1) as [[vs ss2]|e] eqn:Eo; [|discriminate H]. cbn [bind] in H.
+    destruct (read_objs rs (S (List.length l)) n [] ss1) as [[vs ss2]|e] eqn:Eo; [|discriminate H]. cbn [bind] in H.
     destruct (read_objs_sim rs rm Hsim _ _ _ _ _ _ _ Hr1 Eo) as (sm2 & Eom & Hr2). rewrite Eom. cbn [bind].
     destruct (negb (no_null vs)); [discriminate H|]. inversion H; subst.
     eexists. split; [reflexivity|]. apply st_rel_insert. exact Hr2.
@@ -229,7 +229,7 @@ Proof.
     destruct (reserve save (PList []) ss l1) as [ss1 i] eqn:Eres.
     destruct (st_rel_reserve save _ (PList []) ss sm l1 ss1 i Hr (slot_refl _) Eres) as (sm1 & Eresm & Hr1).
     rewrite Eresm.
-    destruct (read_objs rs (List.length l) n [] ss1) as [[vs ss2]|e] eqn:Eo; [|discriminate H]. cbn [bind] in H.
+    destruct (read_objs rs (S (List.length l)) n [] ss1) as [[vs ss2]|e] eqn:Eo; [|discriminate H]. cbn [bind] in H.
     destruct (read_objs_sim rs rm Hsim _ _ _ _ _ _ _ Hr1 Eo) as (sm2 & Eom & Hr2). rewrite Eom. cbn [bind].
     destruct (negb (no_null vs)); [discriminate H|]. inversion H; subst.
     eexists. split; [reflexivity|]. apply st_rel_insert. exact Hr2.
@@ -237,7 +237,7 @@ Proof.
     destruct (reserve save (PDict []) ss l) as [ss1 i] eqn:Eres.
     destruct (st_rel_reserve save _ (PDict []) ss sm l ss1 i Hr (slot_refl _) Eres) as (sm1 & Eresm & Hr1).
     rewrite Eresm.
-    destruct (read_dict rs (List.length l) [] ss1) as [[kv ss2]|e] eqn:Eo; [|discriminate H]. cbn [bind] in H.
+    destruct (read_dict rs (S (List.length l)) [] ss1) as [[kv ss2]|e] eqn:Eo; [|discriminate H]. cbn [bind] in H.
     destruct (read_dict_sim rs rm Hsim _ _ _ _ _ _ Hr1 Eo) as (sm2 & Eom & Hr2). rewrite Eom. cbn [bind].
     inversion H; subst. eexists. split; [reflexivity|]. apply st_rel_insert. exact Hr2.
 Qed.
